@@ -22,7 +22,12 @@ func TestVF(t *testing.T) {
 		t.Fatalf("unknown VF_MODE %q", mode)
 	}
 	f(t)
+	if len(vfHung) > 0 {
+		t.Fatalf("scenarios hung (real-time watchdog): %v", vfHung)
+	}
 }
+
+var vfHung []string
 
 var vfModes = map[string]func(t *testing.T){}
 
@@ -65,6 +70,7 @@ func vfBubble(t *testing.T, name string, f func()) (hung bool) {
 		return false
 	case <-time.After(time.Duration(vfEnvInt("VF_WATCHDOG_S", 120)) * time.Second):
 		fmt.Fprintf(os.Stderr, "VF-HANG scenario=%s\n", name)
+		vfHung = append(vfHung, name)
 		return true
 	}
 }
